@@ -14,7 +14,7 @@ RULE = ("random histories (<=14 steps) of push_theme(inherit=T/F), pop_theme (in
         "Non-trivial: >=3 steps with >=1 non-inheriting push or exceptional exit; distinct by history.")
 ASSUMPTIONS = ["rich.default_styles.DEFAULT_STYLES is data (what the default theme defines)",
                "style names are drawn from [A-Za-z0-9_.-]+ (what a config file key can hold)"]
-REQUIRED = ["mon.lookup", "mon.pop_restores", "mon.base_pop", "mon.config_roundtrip", "mon.exception_exit"]
+REQUIRED = ["mon.context_reentered", "mon.lookup", "mon.pop_restores", "mon.base_pop", "mon.config_roundtrip", "mon.exception_exit"]
 MIN_NONTRIVIAL = {"quick": 2000, "thorough": 100000}
 
 NAMES = ["info", "warn", "danger", "repr.number", "rule.line", "bar.complete", "a", "b.c", "red", "bold",
@@ -166,8 +166,13 @@ def wl_histories(ctx, rng, case_no):
                 log.append(["use_theme", sorted(expect), {"defaults": inh_d, "inherit": inherit, "raises": boom}])
                 saved = [dict(d) for d in model]
                 tm = theme_map(expect, inh_d)
+                # the context object may be kept by the program and entered again: one after the other, or
+                # nested inside itself (each entry pushes, each exit pops)
+                block = console.use_theme(theme, inherit=inherit)
+                reenter = rng.choice([None, None, None, "nested", "again"])
+                log[-1][2]["context_object"] = reenter or "fresh"
                 try:
-                    with console.use_theme(theme, inherit=inherit):
+                    with block:
                         model.append({**model[-1], **tm} if inherit else dict(tm))
                         interesting += not inherit
                         if not check_lookups(ctx, console, model, log + [["inside-block"]], universe):
@@ -178,6 +183,16 @@ def wl_histories(ctx, rng, case_no):
                         while len(model) > len(saved) + 1:
                             console.pop_theme()
                             model.pop()
+                        if reenter == "nested":
+                            ctx.count("mon.context_reentered")
+                            before_inner = [dict(d) for d in model]
+                            with block:
+                                model.append({**model[-1], **tm} if inherit else dict(tm))
+                                if not check_lookups(ctx, console, model, log + [["inside-same-context-again"]], universe):
+                                    return False
+                            model[:] = before_inner
+                            if not check_lookups(ctx, console, model, log + [["after-inner-exit"]], universe):
+                                return False
                         if boom:
                             interesting += 1
                             ctx.count("mon.exception_exit")
@@ -186,6 +201,26 @@ def wl_histories(ctx, rng, case_no):
                     pass
                 model[:] = saved
                 log.append(["block-exit"])
+                if reenter == "again":
+                    ctx.count("mon.context_reentered")
+                    if not check_lookups(ctx, console, model, log, universe):
+                        return False
+                    with block:
+                        model.append({**model[-1], **tm} if inherit else dict(tm))
+                        if not check_lookups(ctx, console, model, log + [["inside-same-context-second-time"]], universe):
+                            return False
+                    model[:] = saved
+                    log.append(["block-exit-second-time"])
+                # the stack is exactly as deep as before the block: a further pop must behave accordingly
+                if len(model) == 1:
+                    ctx.count("mon.base_pop")
+                    try:
+                        console.pop_theme()
+                    except ThemeStackError:
+                        pass
+                    else:
+                        ctx.violation("base-theme-popped", {"log": log + [["pop-after-block"]]})
+                        return False
             else:
                 continue
             if not check_lookups(ctx, console, model, log, universe):
